@@ -55,7 +55,7 @@ def tree_hash():
 
 
 def _prune(keep):
-    """Keep at most the two most recent tree builds."""
+    """Keep at most KEEP_TREES most recent tree builds (VERIF_KEEP_TREES, default 3)."""
     base = os.path.join(SCRATCH, "build")
     if not os.path.isdir(base):
         return
@@ -65,7 +65,8 @@ def _prune(keep):
         if os.path.isdir(p) and n != keep:
             ents.append((os.path.getmtime(p), p))
     ents.sort(reverse=True)
-    for _, p in ents[1:]:
+    keep_n = int(os.environ.get("VERIF_KEEP_TREES", "3"))
+    for _, p in ents[max(keep_n - 1, 0):]:
         shutil.rmtree(p, ignore_errors=True)
 
 
